@@ -320,7 +320,19 @@ class ReturnStatementsTransformer(converter.Base):
 
   def visit_Try(self, node):
     node.body = self._visit_statement_block(node, node.body)
+    # The else clause only runs if the body ran to its end; a return statement
+    # in the body skips it.
+    body_returns = self.state[_Block].create_guard_next
     node.orelse = self._visit_statement_block(node, node.orelse)
+    if body_returns and node.orelse:
+      template = """
+        if not do_return_var_name:
+          orelse
+      """
+      node.orelse = templates.replace(
+          template,
+          do_return_var_name=self.state[_Function].do_return_var_name,
+          orelse=node.orelse)
     node.finalbody = self._visit_statement_block(node, node.finalbody)
     node.handlers = self.visit_block(node.handlers)
     return node
